@@ -125,6 +125,7 @@ public:
     void clear()
     {
         mErrorList.clear();
+        mSuppressedErrorList.clear();
     }
 
     void openPlist(const std::string& filename, const std::vector<std::string>& files)
@@ -211,7 +212,9 @@ private:
         // Alert only about unique errors.
         // This makes sure the errors of a single check() call are unique.
         // TODO: get rid of this? This is forwarded to another ErrorLogger which is also doing this
-        if (!mSettings.emitDuplicates && !mErrorList.emplace(std::move(errmsg)).second)
+        // Suppressed findings are filtered separately: a suppressed finding must not hide a later unsuppressed
+        // one that happens to render to the same text (e.g. a template without the line number).
+        if (!mSettings.emitDuplicates && !(suppressed ? mSuppressedErrorList : mErrorList).emplace(std::move(errmsg)).second)
             return;
 
         if (mAnalyzerInformation)
@@ -281,6 +284,7 @@ private:
 
     // TODO: store hashes instead of the full messages
     std::unordered_set<std::string> mErrorList;
+    std::unordered_set<std::string> mSuppressedErrorList;
 
     std::vector<RemarkComment> mRemarkComments;
 
